@@ -415,6 +415,47 @@ func keywordCases() []SpellCase {
 	return out
 }
 
+// safeLetters lists the code points of isSafeLetter.
+var safeLetters = func() []rune {
+	var out []rune
+	for r := rune(0x100); r <= 0xD7A3; r++ {
+		if isSafeLetter(r) {
+			out = append(out, r)
+		}
+	}
+	return out
+}()
+
+// letterCases: a bare key, a key suffix and a variable name for every letter of
+// the small blocks, and for the large blocks (CJK, Hangul) every letter whose
+// low byte is not an ASCII letter or digit (a lexer that looks at a truncated
+// rune would take it for white space, a quote, an operator ...) plus a sample.
+func letterCases() []SpellCase {
+	var out []SpellCase
+	for i, r := range safeLetters {
+		if r >= 0x4E00 {
+			lo := byte(r)
+			alnum := (lo >= '0' && lo <= '9') || (lo >= 'a' && lo <= 'z') || (lo >= 'A' && lo <= 'Z') || lo >= 0x80
+			if alnum && i%97 != 0 {
+				continue
+			}
+			if !alnum && (r>>8)%5 != 0 {
+				continue
+			}
+		}
+		l := string(r)
+		key := func(k string) *Path { return &Path{Root: &Node{K: KRoot, Next: &Node{K: KKey, S: k}}} }
+		out = append(out,
+			SpellCase{Path: key(l + "aj"), Text: "$." + l + "aj", Why: "letter first"},
+			SpellCase{Path: key("a" + l), Text: "$.a" + l, Why: "letter last"},
+			SpellCase{Path: key(l), Text: "$ . " + l, Why: "letter alone after blanks"},
+			SpellCase{Path: &Path{Root: &Node{K: KVar, S: l + "x"}}, Text: "$" + l + "x", Why: "variable"},
+			SpellCase{Path: &Path{Root: &Node{K: KBin, S: "==", A: &Node{K: KRoot, Next: &Node{K: KKey, S: l}}, B: &Node{K: KStr, S: l}}}, Text: "$." + l + "==\"" + l + "\"", Why: "key then operator"},
+		)
+	}
+	return out
+}
+
 func TestC03(t *testing.T) {
 	ev := newEv(t, "C03")
 	ev.replayTier(t)
@@ -436,6 +477,7 @@ func TestC03(t *testing.T) {
 			ev.Label(name)
 		})
 	}
+	enumerate("identifier_letters", letterCases())
 	enumerate("escapes", escapeCases())
 	enumerate("numbers", numberCases())
 	enumerate("opchains", opChainCases())
@@ -447,6 +489,20 @@ func TestC03(t *testing.T) {
 		Strs:     []string{"a", "abc", "", "a\"b", "a\\b", "\n", "\t\u0001", "é", "😀", " ", "2015-08-01"},
 	}
 	ev.rapidProp(t, "spellings", func(rt *rapid.T) {
+		cfg := cfg
+		if rapid.IntRange(0, 2).Draw(rt, "unikeys") == 0 {
+			// identifiers made of letters from whole Unicode blocks
+			word := func(l string) string {
+				n := rapid.IntRange(1, 3).Draw(rt, l+"n")
+				var b strings.Builder
+				for i := 0; i < n; i++ {
+					b.WriteRune(safeLetters[uniform(rt, len(safeLetters), fmt.Sprintf("%s%d", l, i))])
+				}
+				return b.String()
+			}
+			cfg.Keys = append(append([]string{}, cfg.Keys...), word("k1"), word("k2"), "a"+word("k3"))
+			cfg.VarNames = append(append([]string{}, cfg.VarNames...), word("v1"))
+		}
 		p := GenPath(rt, cfg)
 		text, alts := SpellN(rt, p)
 		c := SpellCase{Path: p, Text: text}
